@@ -90,6 +90,7 @@ EmitsBytes(s) ==
 \* value of an immediate-like source operand under a symbol table (only when OpDefined)
 OpVal(o, env) ==
   CASE o.t = "i" -> o.v
+    [] o.t = "e" -> Eval(o.e, env)
     [] o.t = "l" -> (IF o.nm = "$" THEN env.dollar
                      ELSE IF o.nm \in DOMAIN env.equ THEN Eval(env.equ[o.nm], env) ELSE env.sym[o.nm]) + o.add
     [] o.t = "m" -> IF o.lab = "" THEN o.d
@@ -97,8 +98,9 @@ OpVal(o, env) ==
     [] OTHER -> 0
 
 OpDefined(o, env) ==
-  CASE o.t = "l" -> o.nm = "$" \/ o.nm \in DOMAIN env.sym \/ (o.nm \in DOMAIN env.equ /\ Defined(env.equ[o.nm], env))
-    [] o.t = "m" -> o.lab = "" \/ o.lab \in DOMAIN env.sym \/ (o.lab \in DOMAIN env.equ /\ Defined(env.equ[o.lab], env))
+  CASE o.t = "e" -> Defined(o.e, env)
+    [] o.t = "l" -> o.nm = "$" \/ o.nm \in DOMAIN env.sym \/ (o.nm \in DOMAIN env.equ /\ Defined(env.equ[o.nm], env))
+    [] o.t = "m" -> IF "dx" \in DOMAIN o THEN Defined(o.dx, env) ELSE o.lab = "" \/ o.lab \in DOMAIN env.sym \/ (o.lab \in DOMAIN env.equ /\ Defined(env.equ[o.lab], env))
     [] OTHER -> TRUE
 
 OpsDefined(ops, env) == \A j \in 1..Len(ops) : OpDefined(ops[j], env)
@@ -110,6 +112,10 @@ ResolveEqu(s, env) ==
          LET o == s.ops[j] IN
          IF o.t = "l" /\ o.nm \in DOMAIN env.equ /\ Defined(env.equ[o.nm], env)
          THEN [t |-> "i", v |-> OpVal(o, env), sty |-> "d"]
+         ELSE IF o.t = "e" /\ Defined(o.e, env)                       \* a constant expression is, by C06, its value
+         THEN [t |-> "i", v |-> Eval(o.e, env), sty |-> "d"]
+         ELSE IF o.t = "m" /\ "dx" \in DOMAIN o /\ Defined(o.dx, env)  \* displacement written as an expression
+         THEN [t |-> "m", w |-> o.w, aw |-> o.aw, b |-> o.b, x |-> o.x, sc |-> o.sc, d |-> Eval(o.dx, env), lab |-> ""]
          ELSE IF o.t = "m" /\ o.lab # "" /\ o.lab \in DOMAIN env.equ /\ Defined(env.equ[o.lab], env)
          THEN [o EXCEPT !.d = Eval(env.equ[o.lab], env) + o.d, !.lab = ""]
          ELSE o]]
